@@ -314,7 +314,12 @@ func (e *KnowledgeBase) Reset() {
 	}
 }
 
-// GetKnowledgeBaseKey returns the key corresponding to the knowledgeBase in the KnowledgeLibrary
+// knowledgeBaseNameEscaper makes the separator of the library key unambiguous when a name contains it.
+var knowledgeBaseNameEscaper = strings.NewReplacer(`\`, `\\`, ":", `\:`)
+
+// GetKnowledgeBaseKey returns the key corresponding to the knowledgeBase in the KnowledgeLibrary.
+// The key is name:version; a ':' or '\' inside the name is escaped with '\', so that
+// ("a:b", "c") and ("a", "b:c") do not share one key.
 func GetKnowledgeBaseKey(name, version string) string {
-	return fmt.Sprintf("%s:%s", name, version)
+	return fmt.Sprintf("%s:%s", knowledgeBaseNameEscaper.Replace(name), version)
 }
